@@ -1,7 +1,28 @@
 PROPERTY = "G11"
 ENTRY = {
-        "text": "TODO",
-        "design_ref": "DESIGN.md section 5; notes/G11.md",
-        "note": "TODO",
+        "text": "Upstreams.tla/UpstreamsCore.tla (abstract upstream lists = general upstreams + one section per domain pattern naming upstreams or '#', "
+                "a flag for AdGuard Home's own address and the kind of the one invalid line; dns_config requests of every shape merged over the stored "
+                "configuration and accepted iff every carried list is valid and the RESULTING private-rDNS pair has a server in effect; selection = the "
+                "most specific matching section incl. '[/*.d/]' subdomain-only sections, '#' = the general upstreams, fallback servers only after every "
+                "selected upstream was asked and failed; private PTR questions answered from DHCP / hosts, else sent to the private resolvers only (the "
+                "OS's without AdGuard Home itself when none are set), NXDOMAIN for outside clients and when the switch is off; unknown names under the "
+                "DHCP domain NXDOMAIN, never forwarded; test_upstream_dns reports every named server and every invalid line) is explored by TLC over "
+                "all histories of three finite universes (3 invariants, the statement's sentences asserted on every dns_config / question / test "
+                "transition); every state is printed with its verdict table and its dns_config edges, the graphs are covered by tours from the initial "
+                "state, each walked on a fresh real dnsforward.Server (real handleSetConfig / handleGetConfig / handleTestUpstreamDNS, questions over "
+                "real UDP sockets from inside / outside dns.private_networks) between four recording mock upstreams on real UDP+TCP sockets, comparing "
+                "status code, dns_info, the configuration handed out for the file, server liveness, which mocks received each question, who answered "
+                "and the response class, under every combination of failing upstreams; seeded random histories over a larger universe are recorded and "
+                "validated line by line by TraceUpstreams.tla.",
+        "design_ref": "DESIGN.md section 5 (item 5, upstream side); notes/G11.md",
+        "note": "Trusted: TLC, the concretisation of zz_verif_g11_test.go (rendering of abstract lists incl. comments, empty lines, letter case, merged / "
+                "split section lines; request id + name identify a question at a mock; sentinel answers identify the answering mock), the fake "
+                "operating-system resolver list (Server.sysResolvers, as in the package's own tests). Nondeterministic where the documentation is "
+                "silent (the domain d of '[/*.d/]' below a less specific section; PTR for a DHCP-known address while private rDNS is off; a private "
+                "server list that only names AdGuard Home while the switch is off). Not generated: '[/d/]' together with '[/*.d/]', '#' mixed with "
+                "upstreams in one line, lists without general upstreams, '[//]' (unqualified names), upstream_dns_file, DoH/DoT/DoQ upstreams, "
+                "fastest_addr mode. Selection itself lives in the dnsproxy module (v0.75.3), outside /repo. Two open findings with one proposed fix "
+                "(dns_config validates the private rDNS fields of the request alone, not the resulting configuration: clearing local_ptr_upstreams "
+                "while the switch is on stops the DNS server with a 500; switching it on alone is refused although servers are stored).",
         "technique": "TLA+ state machine explored by TLC; edge-covering tour replay into real code + TLC trace validation",
     }
